@@ -1,4 +1,316 @@
-/-! Model/C12 — executable model (core Lean only; imports only NibabelModel.Basic.* / other Model files). -/
+/-
+  Model/C12 — executable model of the file-name logic behind "all serialisation routes and accepted
+  file names are equivalent" (core Lean only).
+
+  Strings are lists of character codes (`Str = List Nat`; the driver feeds the UTF-8 bytes of the
+  POSIX-normalised path).  Case folding is ASCII (`A..Z` <-> `a..z`), which is what Python's
+  `str.lower()/upper()` do on ASCII names; names with non-ASCII *letters that have case mappings onto
+  ASCII letters* (e.g. KELVIN SIGN) are outside the model (recorded in ASSUMPTIONS).
+
+  Python source modelled (tree after the `fix:` commit be3c8502 for C12):
+    nibabel/filename_parser.py  types_filenames 45-169, parse_filename 172-243, _endswith/_iendswith
+                                246-251, splitext_addext 254-309
+    posixpath.splitext (CPython genericpath._splitext) — used by parse_filename, Opener, MGHImage
+    nibabel/filebasedimages.py  filespec_to_file_map 252-285, to_filename 287-304, path_maybe_image
+                                424-476 (extension test), SerializableImage 479-610
+    nibabel/freesurfer/mghformat.py  MGHImage.filespec_to_file_map 484-490
+    nibabel/openers.py          Opener.__init__ (file-like => no codec) 151-178,
+                                _get_opener_argnames 180-191
+    nibabel/loadsave.py         load 85-121 (class loop), save 143-203 (target class)
+  `_stringify_path` (pathlib normalisation) is NOT modelled: every function here takes the string
+  that `_stringify_path` returned.
+-/
 namespace Nb.C12
+
+abbrev Str := List Nat
+
+def DOT : Nat := 46
+def SEP : Nat := 47
+
+/-! ### ASCII case folding -/
+def lowerC (c : Nat) : Nat := if 65 ≤ c ∧ c ≤ 90 then c + 32 else c
+def upperC (c : Nat) : Nat := if 97 ≤ c ∧ c ≤ 122 then c - 32 else c
+def lower (s : Str) : Str := s.map lowerC
+def upper (s : Str) : Str := s.map upperC
+
+/-! ### `_endswith`, `_iendswith`, Python negative slicing -/
+/-- `whole.endswith(e)` -/
+def endsWith (whole e : Str) : Bool := e.isSuffixOf whole
+/-- `_iendswith(whole, e)` = `whole.lower().endswith(e.lower())` (filename_parser.py:250-251) -/
+def iendsWith (whole e : Str) : Bool := (lower e).isSuffixOf (lower whole)
+def endsFn (matchCase : Bool) : Str → Str → Bool := if matchCase then endsWith else iendsWith
+
+/-- `(s[:-n], s[-n:])` with Python semantics, including `n = 0` (`s[:-0] = ''`, `s[-0:] = s`) and
+    `n > len s`. -/
+def cutEnd (s : Str) (n : Nat) : Str × Str :=
+  if n = 0 then ([], s) else (s.take (s.length - n), s.drop (s.length - n))
+
+/-! ### `os.path.splitext` (posixpath) -/
+/-- split at the LAST occurrence of `c`: `some (s[:i], s[i:])` with `i = s.rfind(c)`, `none` if absent -/
+def splitLast (c : Nat) : Str → Option (Str × Str)
+  | [] => none
+  | x :: xs =>
+    match splitLast c xs with
+    | some (a, b) => some (x :: a, b)
+    | none => if x = c then some ([], x :: xs) else none
+
+/-- the characters after the last `/` (in reverse order — only used through `any`) -/
+def baseRev (a : Str) : Str := a.reverse.takeWhile (· ≠ SEP)
+
+/-- `posixpath.splitext(p)`: split at the last dot provided it lies after the last `/` and the
+    basename has a character other than `.` before it (leading dots are not an extension). -/
+def splitext (p : Str) : Str × Str :=
+  match splitLast DOT p with
+  | none => (p, [])
+  | some (a, b) =>
+    if b.contains SEP then (p, [])
+    else if (baseRev a).any (· ≠ DOT) then (a, b) else (p, [])
+
+/-! ### `splitext_addext` (filename_parser.py:254-309) -/
+def splitextAddext (fn : Str) (addexts : List Str) (matchCase : Bool := false) : Str × Str × Str :=
+  let r : Str × Str := match addexts.find? (endsFn matchCase fn) with
+    | some e => cutEnd fn e.length
+    | none => (fn, [])
+  match splitLast DOT r.1 with
+  | none => (r.1, [], r.2)
+  | some (a, b) => if r.1.all (· = DOT) then (r.1, [], r.2) else (a, b, r.2)
+
+/-! ### `parse_filename` (filename_parser.py:172-243) -/
+abbrev TypesExts := List (Str × Option Str)
+
+structure Parsed where
+  root : Str
+  ext : Str
+  ignored : Option Str
+  guessed : Option Str
+  deriving Repr, DecidableEq
+
+/-- the `type_ext and endswith(filename, type_ext)` test of the second loop -/
+def typeMatches (ends : Str → Str → Bool) (fn : Str) (t : Str × Option Str) : Bool :=
+  match t.2 with
+  | some e => !e.isEmpty && ends fn e
+  | none => false
+
+def parseFilename (fn : Str) (T : TypesExts) (S : List Str) (matchCase : Bool := false) : Parsed :=
+  let ends := endsFn matchCase
+  let r : Str × Option Str := match S.find? (ends fn) with
+    | some e => let c := cutEnd fn e.length; (c.1, some c.2)
+    | none => (fn, none)
+  match T.find? (typeMatches ends r.1) with
+  | some (name, oe) =>
+      let c := cutEnd r.1 (oe.getD []).length
+      ⟨c.1, c.2, r.2, some name⟩
+  | none =>
+      let c := splitext r.1
+      ⟨c.1, c.2, r.2, none⟩
+
+/-! ### `types_filenames` (filename_parser.py:45-169) -/
+inductive Err where
+  | typesFilenames   -- TypesFilenamesError (=> ImageFileError in filespec_to_file_map)
+  | notImplemented   -- NotImplementedError of `_filemap_from_iobase` for multi-file classes
+  | imageFile        -- ImageFileError of load()/save()
+  deriving Repr, DecidableEq
+
+/-- `template_fname.removesuffix('.')` -/
+def removeSuffixDot (s : Str) : Str :=
+  if s.getLast? = some DOT then s.dropLast else s
+
+def truthy : Option Str → Bool
+  | some s => !s.isEmpty
+  | none => false
+
+/-- the case rule applied to SIBLING extensions (lines 148-156): all upper => upper, all lower =>
+    lower, otherwise (and for an empty found extension) unchanged -/
+def procExt (found e : Str) : Str :=
+  if found.isEmpty then e
+  else if found = upper found then upper e
+  else if found = lower found then lower e
+  else e
+
+abbrev FileMap := List (Str × Str)
+
+/-- one iteration of the final loop; `namedKeepsExt = true` is the repaired code (the member that was
+    named keeps `found_ext` exactly), `false` the pinned original (`if ext: fname += proc_ext(ext)`) -/
+def memberName (namedKeepsExt : Bool) (tmpl : Str) (p : Parsed) (direct : Option Str)
+    (t : Str × Option Str) : Str × Str :=
+  if some t.1 = direct then (t.1, tmpl)
+  else
+    let e : Str :=
+      if namedKeepsExt && decide (some t.1 = p.guessed) then p.ext
+      else match t.2 with
+        | some e => if e.isEmpty then [] else procExt p.ext e
+        | none => []
+    (t.1, p.root ++ e ++ (if truthy p.ignored then p.ignored.getD [] else []))
+
+def typesFilenamesGen (namedKeepsExt : Bool) (tmpl0 : Str) (T : TypesExts) (S : List Str)
+    (enforce : Bool := true) (matchCase : Bool := false) : Except Err FileMap :=
+  let tmpl := removeSuffixDot tmpl0
+  let p := parseFilename tmpl T S matchCase
+  if enforce && p.guessed.isNone && !p.ext.isEmpty then .error .typesFilenames
+  else if enforce && p.guessed.isNone && truthy p.ignored then .error .typesFilenames
+  else
+    let direct : Option Str :=
+      if !enforce && (!p.ext.isEmpty || truthy p.ignored) then T.head?.map (·.1) else none
+    .ok (T.map (memberName namedKeepsExt tmpl p direct))
+
+/-- `types_filenames` as it is now -/
+def typesFilenames (tmpl : Str) (T : TypesExts) (S : List Str) (enforce : Bool := true)
+    (matchCase : Bool := false) : Except Err FileMap :=
+  typesFilenamesGen true tmpl T S enforce matchCase
+
+/-- `types_filenames` of the pinned tree (before the fix: the named member's extension went through
+    the sibling case rule as well) -/
+def typesFilenamesOrig (tmpl : Str) (T : TypesExts) (S : List Str) (enforce : Bool := true)
+    (matchCase : Bool := false) : Except Err FileMap :=
+  typesFilenamesGen false tmpl T S enforce matchCase
+
+/-! ### class table rows (instances are REGENERATED into Generated/C12FileTypes.lean) -/
+structure ClassRow where
+  name : Str                 -- class `__name__`
+  filesTypes : TypesExts     -- `files_types`
+  validExts : List Str       -- `valid_exts`
+  suffixes : List Str        -- `_compressed_suffixes`
+  makeable : Bool
+  rw : Bool
+  sniffs : Bool              -- `hasattr(header_class, 'may_contain_header')`
+  fmKind : Nat               -- filespec_to_file_map: 0 = FileBasedImage's, 1 = MGHImage's `.mgz`
+                             --   override, 2 = other override (AFNI; depends on the file system — not modelled)
+  serial : Bool              -- subclass of SerializableImage
+  deriving Repr, DecidableEq
+
+def mgzExt : Str := [46, 109, 103, 122]   -- ".mgz"
+
+/-- `klass.filespec_to_file_map(filespec)`; `none` for classes whose override is not modelled -/
+def filespecToFileMap (r : ClassRow) (fn : Str) : Option (Except Err FileMap) :=
+  if r.fmKind = 0 then some (typesFilenames fn r.filesTypes r.suffixes)
+  else if r.fmKind = 1 then
+    -- mghformat.py:484-490
+    if lower (splitext fn).2 = mgzExt then some (.ok [((r.filesTypes.head?.map (·.1)).getD [], fn)])
+    else some (typesFilenames fn r.filesTypes r.suffixes)
+  else none
+
+/-! ### Opener codec choice (openers.py:180-191) -/
+/-- codec ids: 0 = plain `open`, 1 = gzip, 2 = bz2, 3 = zstd.  `keys` = `compress_ext_map` without the
+    `None` entry, in dict order.  `codecOfExt`: the case-insensitive loop (openers.py:183-188) -/
+def codecOfExt (keys : List (Str × Nat)) (x : Str) : Nat :=
+  match keys.find? (fun k => lower k.1 == lower x) with
+  | some k => k.2
+  | none => 0
+
+def openerCodec (keys : List (Str × Nat)) (icase : Bool) (fn : Str) : Nat :=
+  let ext := (splitext fn).2
+  if icase then codecOfExt keys ext
+  else
+    match keys.find? (fun k => k.1 == ext) with
+    | some k => k.2
+    | none => 0
+
+/-! ### `path_maybe_image` extension test and the `load()` class loop -/
+def extOK (r : ClassRow) (fn : Str) : Bool :=
+  r.validExts.contains (lower (splitextAddext fn r.suffixes).2.1)
+
+/-- `load(filename)`: first class of `all_image_classes` whose extension test passes and whose header
+    sniff (external: `sniffOK className` = `header_class.may_contain_header(bytes of the header
+    file)`) accepts; `none` = ImageFileError -/
+def loadClass (table : List ClassRow) (sniffOK : Str → Bool) (fn : Str) : Option Str :=
+  (table.find? fun r => extOK r fn && (!r.sniffs || sniffOK r.name)).map (·.name)
+
+/-- the file `_sniff_meta_for` reads for class `r` (filebasedimages.py:405-410):
+    `types_filenames(...).get('header', filename)` -/
+def sniffFile (headerKey : Str) (r : ClassRow) (fn : Str) : Except Err Str :=
+  match typesFilenames fn r.filesTypes r.suffixes with
+  | .ok m => .ok ((m.lookup headerKey).getD fn)
+  | .error e => .error e
+
+/-! ### `save()` target class (loadsave.py:143-203) -/
+def findRow (table : List ClassRow) (name : Str) : Option ClassRow := table.find? (·.name = name)
+
+/-- `pairOf`/`singleOf`: the four special-cased conversions `Nifti{1,2}Image <-> Nifti{1,2}Pair`
+    given as (from, to) class names for `.img/.hdr` and for `.nii`. Generic branch: first class in
+    the table whose `valid_exts` has the lower-cased extension (assuming its `from_image` succeeds). -/
+def saveClass (table : List ClassRow) (saveSfx : List Str) (toPair toSingle : List (Str × Str))
+    (imgHdr nii : List Str) (k : ClassRow) (fn : Str) : Except Err Str :=
+  match filespecToFileMap k fn with
+  | some (.ok _) => .ok k.name
+  | _ =>
+    let lext := lower (splitextAddext fn saveSfx).2.1
+    match (if imgHdr.contains lext then toPair.lookup k.name
+           else if nii.contains lext then toSingle.lookup k.name else none) with
+    | some c => .ok c
+    | none =>
+      match table.find? (fun r => r.validExts.contains lext) with
+      | some r => .ok r.name
+      | none => .error .imageFile
+
+/-! ### serialisation routes (filebasedimages.py:479-610) over an abstract byte-level world -/
+abbrev Bytes := List Nat
+
+/-- a file system: association list name ↦ stored bytes (latest write first) -/
+abbrev FS := List (Str × Bytes)
+def fsWrite (fs : FS) (n : Str) (b : Bytes) : FS := (n, b) :: fs.filter (fun e => e.1 ≠ n)
+def fsRead (fs : FS) (n : Str) : Option Bytes := fs.lookup n
+
+/-- external codecs; contract (ASSUMPTION): `decomp c (comp c b) = b` -/
+structure Codecs where
+  comp : Nat → Bytes → Bytes
+  decomp : Nat → Bytes → Bytes
+
+/-- where a FileHolder points: a named file (opened through `ImageOpener`, codec by suffix) or a
+    caller-supplied stream (openers.py:152-155: used as is, no codec) -/
+inductive Holder where
+  | file (n : Str)
+  | stream
+  deriving Repr, DecidableEq
+
+structure World where
+  fs : FS
+  stream : Bytes
+
+/-- `_filemap_from_iobase` (filebasedimages.py:537-541) -/
+def filemapFromIobase (r : ClassRow) : Except Err (List (Str × Holder)) :=
+  if r.filesTypes.length > 1 then .error .notImplemented
+  else .ok [((r.filesTypes.head?.map (·.1)).getD [], Holder.stream)]
+
+/-- `to_file_map` of a single-file class: `ser img` written through the holder -/
+def writeHolder (cd : Codecs) (keys : List (Str × Nat)) (icase : Bool) (payload : Bytes) (w : World) :
+    Holder → World
+  | .file n => { w with fs := fsWrite w.fs n (cd.comp (openerCodec keys icase n) payload) }
+  | .stream => { w with stream := payload }
+
+def readHolder (cd : Codecs) (keys : List (Str × Nat)) (icase : Bool) (w : World) : Holder → Option Bytes
+  | .file n => (fsRead w.fs n).map (cd.decomp (openerCodec keys icase n))
+  | .stream => some w.stream
+
+/-- `to_stream(io)` then `io.getvalue()` = `to_bytes()` -/
+def toBytes (cd : Codecs) (keys : List (Str × Nat)) (icase : Bool) (r : ClassRow) (payload : Bytes) :
+    Except Err Bytes :=
+  match filemapFromIobase r with
+  | .ok [(_, h)] => .ok (writeHolder cd keys icase payload ⟨[], []⟩ h).stream
+  | .ok _ => .error .notImplemented
+  | .error e => .error e
+
+/-- `to_filename(name)`: `file_map = filespec_to_file_map(name); to_file_map()` for a single-file class -/
+def toFilename (cd : Codecs) (keys : List (Str × Nat)) (icase : Bool) (r : ClassRow) (payload : Bytes)
+    (w : World) (fn : Str) : Except Err World :=
+  match filespecToFileMap r fn with
+  | some (.ok [(_, n)]) => .ok (writeHolder cd keys icase payload w (.file n))
+  | some (.error e) => .error e
+  | _ => .error .notImplemented
+
+/-- `from_filename(name)` (bytes handed to the format parser) for a single-file class -/
+def fromFilename (cd : Codecs) (keys : List (Str × Nat)) (icase : Bool) (r : ClassRow) (w : World)
+    (fn : Str) : Option Bytes :=
+  match filespecToFileMap r fn with
+  | some (.ok [(_, n)]) => readHolder cd keys icase w (.file n)
+  | _ => none
+
+/-- `from_bytes(b)` = `from_stream(BytesIO(b))`: the parser sees `b` -/
+def fromBytes (r : ClassRow) (b : Bytes) : Except Err Bytes :=
+  match filemapFromIobase r with
+  | .ok [(_, h)] => match readHolder ⟨fun _ b => b, fun _ b => b⟩ [] true ⟨[], b⟩ h with
+      | some x => .ok x
+      | none => .error .imageFile
+  | .ok _ => .error .notImplemented
+  | .error e => .error e
 
 end Nb.C12
